@@ -371,9 +371,9 @@ func TestVerifDbRpc(t *testing.T) {
 	w := bufio.NewWriterSize(f, 1<<20)
 	defer w.Flush()
 	g := &c12rpc{r: rand.New(rand.NewSource(seed ^ 0x5bd1e995)), w: w, t: t}
-	ncases, nops := 8, 220
+	ncases, nops := 12, 220
 	if tier == "thorough" {
-		ncases, nops = 80, 400
+		ncases, nops = 250, 400
 	}
 	for c := 0; c < ncases; c++ {
 		g.newCase()
